@@ -1775,7 +1775,7 @@ def concatenate(
 
             return newpulse
 
-        if calc_filter_function is None:
+        if calc_filter_function is None and not calc_pulse_correlation_FF:
             # compute filter function only if at least one pulse has a control
             # matrix cached
             if not equal_n_opers or not any(cached_ctrl_mat):
@@ -1791,7 +1791,7 @@ def concatenate(
 
         omega = pulses[ind].omega
 
-    if not equal_n_opers:
+    if not equal_n_opers and not calc_pulse_correlation_FF:
         # Cannot reuse atomic filter functions
         newpulse.cache_filter_function(omega, which=which)
         return newpulse
